@@ -725,6 +725,29 @@ def magic_rule(ctx):
            "match)" if len(re_calls) == 1 else
            "read_common does not read the header with exactly one read_exact: a reader that "
            "returns the header in pieces would be rejected or a short header accepted")
+    # the bytes are taken from the caller's reader itself: a buffering wrapper created here reads
+    # ahead of the image and throws away what follows it in the stream (a second image, a trailer)
+    wrapped = []
+    for b0, t0 in list(re_calls) + dec_calls:
+        cur, hops = t0["args"][0] if t0 in [x[1] for x in re_calls] else t0["args"][-2] if len(t0["args"]) >= 2 else t0["args"][0], 0
+        while hops < 8:
+            hops += 1
+            o0 = fa.origin(cur)
+            if o0[0] == "call":
+                n0 = {strip_generics(x).rsplit("::", 1)[-1] for x in callee_paths(o0[2])}
+                if any("BufReader" in x or "Take" in x or "Chain" in x for x in callee_paths(o0[2])) and n0 & {"new", "with_capacity", "take", "chain"}:
+                    wrapped.append("%s at %s" % (sorted(n0)[0], fa.loc(o0[1])))
+                    break
+                if not o0[2]["args"]:
+                    break
+                cur = o0[2]["args"][0]
+                continue
+            break
+    ctx.ob("MAGIC", "%s|reads-the-callers-reader" % P_RC, not wrapped, fa.loc(0),
+           "the header and the image are read from the caller's reader itself" if not wrapped else
+           "read_common reads through a wrapper it creates (%s): a buffering reader takes more from the "
+           "caller's stream than the image holds, so what follows the image is lost and `read` no longer "
+           "consumes what `write` produced" % ", ".join(sorted(set(wrapped))))
     buf_ap = E.ap_operand(fa, re_calls[0][1]["args"][1]) if re_calls else None
     magic_const = None
     cmp_ok = False
